@@ -49,8 +49,10 @@ type storeView struct {
 	Used        uint64
 	RegionCount int
 	RegionSize  int64
-	Labels      map[string]string
-	OddLabels   bool // empty value, upper-case letters, duplicate key: documented special cases
+	Labels      map[string]string // lower-cased key -> value (labels with an empty value are not set)
+	RawKeys     []string          // keys as stored
+	emptyKeys   map[string]bool
+	OddLabels   bool // two labels with the same key up to case
 	Busy        bool
 	Pending     int
 	SendSnap    uint32
@@ -66,15 +68,26 @@ func viewOf(s *core.StoreInfo, d *storeDesc) *storeView {
 		v.Cap, v.Avail, v.Used = st.GetCapacity(), st.GetAvailable(), st.GetUsedSize()
 		v.Busy, v.SendSnap, v.RecvSnap = st.GetIsBusy(), st.GetSendingSnapCount(), st.GetReceivingSnapCount()
 	}
+	// Documented label semantics: label KEYS are case-insensitive (Zone = zone), the first label with a
+	// key wins, an empty value means "not set". Values are kept as they are: whether z1 and Z1 are one
+	// location is answered differently inside pd (location comparison folds case, the isolation filter and
+	// label constraints do not), so values that differ only in case are never judged as same or different.
 	for _, l := range s.GetLabels() {
 		k, val := l.GetKey(), l.GetValue()
-		if _, dup := v.Labels[k]; dup || val == "" || k == "" {
-			v.OddLabels = true
+		v.RawKeys = append(v.RawKeys, k)
+		lk := strings.ToLower(k)
+		if _, dup := v.Labels[lk]; dup || v.emptyKeys[lk] || k == "" {
+			v.OddLabels = true // two labels whose keys differ at most in case: the server never stores that
+			continue
 		}
-		if k != "specialUse" && (k != strings.ToLower(k) || val != strings.ToLower(val)) {
-			v.OddLabels = true
+		if val == "" {
+			if v.emptyKeys == nil {
+				v.emptyKeys = map[string]bool{}
+			}
+			v.emptyKeys[lk] = true
+			continue
 		}
-		v.Labels[k] = val
+		v.Labels[lk] = val
 	}
 	if d != nil {
 		v.LimitOut = d.AddLimitOut
@@ -120,7 +133,7 @@ func isExclusiveKey(k string) bool { return k == "engine" || strings.HasPrefix(k
 
 func (v *storeView) exclusiveKeys() []string {
 	var out []string
-	for k := range v.Labels {
+	for _, k := range v.RawKeys {
 		if isExclusiveKey(k) {
 			out = append(out, k)
 		}
@@ -145,7 +158,7 @@ func matchConstraints(v *storeView, cons []placement.LabelConstraint) bool {
 		}
 	}
 	for _, c := range cons {
-		val, has := v.Labels[c.Key]
+		val, has := v.Labels[strings.ToLower(c.Key)]
 		in := false
 		for _, x := range c.Values {
 			if has && x == val {
@@ -200,14 +213,18 @@ func isolationViolated(x *storeView, labels []string, level string, others []*st
 		}
 		same, incomplete := true, x.OddLabels || o.OddLabels
 		for _, l := range labels[:idx+1] {
-			a, okA := x.Labels[l]
-			b, okB := o.Labels[l]
+			a, okA := x.Labels[strings.ToLower(l)]
+			b, okB := o.Labels[strings.ToLower(l)]
 			if !okA || !okB {
 				incomplete = true
 				continue
 			}
 			if a != b {
-				same = false
+				if strings.EqualFold(a, b) {
+					incomplete = true // z1 / Z1: one location or two? not judged
+				} else {
+					same = false
+				}
 			}
 		}
 		switch {
@@ -479,7 +496,7 @@ func (c *caseCtx) judgeSteps(s *stats, checkerName, via, desc, opString string, 
 		}
 		// remaining peers: the origin's peers that the operator does not remove
 		if !c.rulesOn() {
-			if v, has := x.Labels["specialUse"]; has {
+			if v, has := x.Labels["specialuse"]; has {
 				if v == "hotRegion" || v == "reserved" {
 					report("adds-peer-on-special-use-store", fmt.Sprintf("step %d adds a peer on store %d which is labelled specialUse=%s", a.idx, a.store, v), storeWit)
 				} else {
@@ -660,7 +677,7 @@ func (c *caseCtx) freshStore(v *storeView) tri {
 				res = unsure
 				continue
 			}
-			if b == v.Labels[l] {
+			if strings.EqualFold(b, v.Labels[l]) {
 				return no
 			}
 		}
